@@ -49,22 +49,23 @@ Definition check_stage (m : res (Z * raw)) (o : obs) : bool :=
   | _, _ => false
   end.
 
-(* stage 0 = first construction; stage i+1 = RawMeshData(mesh_i) instantiated again with the same dim override *)
-Fixpoint check_stages (c : cfg) (dim : option Z) (m : res (Z * raw)) (os : list obs) : bool :=
+(* stage 0 = first construction (no edits); stage i+1 = RawMeshData(mesh_i), the recorded edits, instantiated again with
+   the same dim override *)
+Fixpoint check_stages (c : cfg) (dim : option Z) (m : res (Z * raw)) (os : list (list edit * obs)) : bool :=
   match os with
   | [] => true
-  | o :: t =>
+  | (_, o) :: t =>
       check_stage m o &&
       match t with
       | [] => true
-      | _ => match m with
-             | Ok (k, r) => check_stages c dim (instanciate c dim (rewrap k r)) t
-             | Err _ => false
-             end
+      | (es, _) :: _ => match m with
+                        | Ok (k, r) => check_stages c dim (rebuild c dim es k r) t
+                        | Err _ => false
+                        end
       end
   end.
 
-Definition check_case (x : cfg * input * list obs) : bool :=
+Definition check_case (x : cfg * input * list (list edit * obs)) : bool :=
   match x with
   | (c, IRaw dim r, os) => check_stages c dim (instanciate c dim r) os
   | (c, IArr w V E F C, os) => check_stages c None (from_arrays c w V E F C) os
